@@ -23,7 +23,7 @@ enum { OUT_NONE = 0, OUT_DONE, OUT_HANG, OUT_INFRA, OUT_CRASH, OUT_NOUT };
 enum {
   C_NONE = 0, C_PIPE, C_CLOSE, C_READ, C_WRITE, C_POLL, C_FORK, C_WAITPID, C_KILL, C_OPEN, C_DUP2,
   C_FCNTL, C_CHDIR, C_EXEC, C_GETCWD, C_GETRLIMIT, C_FILENO, C_MALLOC, C_CALLOC, C_REALLOC,
-  C_STRDUP, C_FREE, C_SIGMASK, C_SIGACTION, C_SIGSET, C_CLOCK, C_EXIT, C_DUP, C_SLEEP, C_NCALLS
+  C_STRDUP, C_FREE, C_SIGMASK, C_SIGACTION, C_SIGSET, C_CLOCK, C_EXIT, C_DUP, C_SLEEP, C_CLOSE_RANGE, C_NCALLS
 };
 
 #define VK_MAX_TRACE 16384
